@@ -7,6 +7,7 @@ import (
 	"testing"
 
 	"github.com/dolthub/go-mysql-server/vh/internal/fx"
+	"github.com/dolthub/go-mysql-server/vh/internal/kf"
 	"github.com/dolthub/go-mysql-server/vh/internal/stats"
 	"pgregory.net/rapid"
 )
@@ -41,7 +42,7 @@ func (c *tcase) String() string { return strings.Join(c.script, ";\n") + ";" }
 
 func runCase(rt *rapid.T, st *stats.Collector, maxRows int) {
 	c := &tcase{}
-	noCI := rapid.IntRange(0, 2).Draw(rt, "noci") == 0
+	noCI := rapid.Bool().Draw(rt, "noci")
 	ta := genTable(rt, "t0", maxRows, noCI)
 	tb := genTable(rt, "t1", min(maxRows, 8), noCI)
 	f := fx.New(fx.Opts{Stats: rapid.IntRange(0, 3).Draw(rt, "stats") == 0})
@@ -52,21 +53,24 @@ func runCase(rt *rapid.T, st *stats.Collector, maxRows int) {
 	s.MustExec(rt.Fatalf, c.script...)
 
 	g := &qgen{rt: rt}
+	// DISTINCT, GROUP BY and UNION de-duplicate rows: they are generated only over tables without
+	// case-insensitive columns, so that the representative of a class of equal strings cannot
+	// differ between the ordered query and the base query
+	modes := []string{"single", "single", "single", "join", "join"}
+	if noCI {
+		modes = []string{"single", "single", "join", "distinct", "group", "union"}
+	}
 	nq := rapid.IntRange(1, 3).Draw(rt, "nqueries")
 	for i := 0; i < nq; i++ {
 		var q *query
-		hi := 1
-		if noCI {
-			hi = 4
-		}
-		switch m := rapid.IntRange(0, hi+2).Draw(rt, "mode"); {
-		case m <= 2:
+		switch rapid.SampledFrom(modes).Draw(rt, "mode") {
+		case "single":
 			q = g.single(ta)
-		case m == 3:
+		case "join":
 			q = g.join(ta, tb)
-		case m == 4:
+		case "distinct":
 			q = g.distinctQ(ta)
-		case m == 5:
+		case "group":
 			q = g.groupQ(ta)
 		default:
 			q = g.unionQ(ta)
@@ -117,6 +121,8 @@ func planLabel(plan string) string {
 		return "plan:topn"
 	case strings.Contains(plan, "Sort"):
 		return "plan:sort"
+	case strings.Contains(plan, "sortFields"):
+		return "plan:setop-sort"
 	case strings.Contains(plan, "IndexedTableAccess"):
 		return "plan:index-order"
 	}
@@ -136,26 +142,25 @@ func checkQuery(rt *rapid.T, st *stats.Collector, c *tcase, s *fx.Sess, q *query
 	baseRows := fx.NormRows(rb.Schema, rb.Rows)
 	total := len(baseRows)
 
-	// LIMIT / OFFSET around the size of the base result: 0, 1, inside, n, n+1, far beyond
+	// LIMIT / OFFSET around the size of the base result: 0, 1, inside, n-1, n, n+1, far beyond
 	if rapid.IntRange(0, 3).Draw(rt, "limit") > 0 {
-		q.limit = rapid.SampledFrom([]int{0, 1, 1, 2, 3, total - 1, total, total + 1, 1000}).Draw(rt, "limitn")
-		if q.limit < 0 {
-			q.limit = 0
-		}
+		cands := []int{0, 1, 1, 2, 2, 3, total / 2, total/2 + 1, total - 1, total - 1, total, total + 1, 1000}
+		q.limit = max(0, rapid.SampledFrom(cands).Draw(rt, "limitn"))
 		if rapid.Bool().Draw(rt, "offset") {
-			q.offset = rapid.SampledFrom([]int{0, 1, 1, 2, 3, total - 1, total, total + 1, 1000}).Draw(rt, "offsetn")
-			if q.offset < 0 {
-				q.offset = 0
-			}
+			q.offset = max(0, rapid.SampledFrom(cands).Draw(rt, "offsetn"))
 			q.comma = rapid.IntRange(0, 3).Draw(rt, "comma") == 0
 		}
 	}
+	steerAround(st, q)
 	ordSQL := q.ordered()
 	pl := planLabel(s.Plan(ordSQL))
 	st.Class(pl)
 	ro := s.Exec(ordSQL)
 
 	fail := func(what string) {
+		if suppressed(st, q, ro) {
+			return
+		}
 		rt.Fatalf("C04 violated: %s\n-- set-up\n%s\n-- query\n%s;\n-> %s\n-- the same query without ORDER BY / LIMIT\n%s;\n-> %s\n-- plan\n%s%s",
 			what, c, ordSQL, ro, baseSQL, rb, s.Plan(ordSQL), ro.Stack)
 	}
@@ -255,4 +260,60 @@ func checkQuery(rt *rapid.T, st *stats.Collector, c *tcase, s *fx.Sess, q *query
 		st.NonTrivial(map[string]any{"query": ordSQL, "rows": len(out), "of": total, "classes": info.outClasses}, c.String(), ordSQL)
 	}
 	return true
+}
+
+// TestC04Known re-runs the minimal witness of every known finding through the same oracle: a
+// witness that still violates the property must be listed as known (else the test fails); one
+// that satisfies it is reported (the defect was repaired and the id can be retired).
+func TestC04Known(t *testing.T) {
+	st := stats.New("C04", "known")
+	defer st.Flush()
+	for i := range findings {
+		fd := &findings[i]
+		w := fd.witness
+		st.Eval()
+		f := fx.New(fx.Opts{})
+		s := f.NewSession("", "", "")
+		s.MustExec(t.Fatalf, w.setup...)
+		rb := s.Exec(w.base)
+		ro := s.Exec(w.query)
+		f.Close()
+		if !rb.OK() {
+			t.Fatalf("%s: base query of the witness failed: %s", fd.id, rb)
+		}
+		verdict := ""
+		if !ro.OK() {
+			verdict = "the query failed: " + ro.String()
+		} else {
+			conv := func(rows [][]string) []orow {
+				out := make([]orow, len(rows))
+				for i, r := range rows {
+					out[i].vals = r
+					for j, p := range w.keyPos {
+						kv, err := parseKey(r[p], w.keys[j].cls)
+						if err != nil {
+							t.Fatalf("%s: %v", fd.id, err)
+						}
+						out[i].key = append(out[i].key, kv)
+					}
+				}
+				return out
+			}
+			base, out := conv(fx.NormRows(rb.Schema, rb.Rows)), conv(fx.NormRows(ro.Schema, ro.Rows))
+			verdict = checkSorted(out, w.keys)
+			if verdict == "" {
+				verdict, _ = checkSlice(base, out, w.keys, w.limit, w.offset)
+			}
+		}
+		switch {
+		case verdict == "":
+			st.Class("witness-no-longer-reproduces:" + fd.id)
+			t.Logf("%s: witness no longer reproduces: %s -> %s", fd.id, w.query, ro)
+		case kf.Suppress(st, fd.id):
+			st.NonTrivial(map[string]any{"finding": fd.id, "query": w.query, "result": ro.String(), "verdict": verdict}, fd.id)
+			t.Logf("%s reproduces: %s -> %s: %s", fd.id, w.query, ro, verdict)
+		default:
+			t.Errorf("C04 violated (witness of %s, not listed as known): %s\n%s;\n-> %s\n%s", fd.id, strings.Join(w.setup, ";\n"), w.query, ro, verdict)
+		}
+	}
 }
